@@ -38,7 +38,7 @@ class SleepyObserver(W.Worker):
         self.vf_log.append((_id, region.start, region.end, bytes(region)))
 
 
-def run_real(case, data, rng, watchdog_s=60.0):
+def run_real(case, data, rng, watchdog_s=60.0, twice=False):
     import random
 
     old = sys.getswitchinterval()
@@ -51,12 +51,46 @@ def run_real(case, data, rng, watchdog_s=60.0):
                for _ in case["observers"]]
         kw = {k: v for k, v in AC.split_kwargs(case).items() if k != "analysis_window"}
         tw = W.TokenizerWorker(reader, obs, **kw)
-        tw.start_all()
+        obs2, tw2 = [], None
+        if twice:
+            # two pipelines are set up on ONE reader before either runs; they run one after the other (the first closes the reader
+            # at the end of the stream, the second opens it again: a bytes source restarts at its beginning)
+            obs2 = [SleepyObserver(random.Random(rng.getrandbits(32)), 0.0, 0.2) for _ in case["observers"]]
+            tw2 = W.TokenizerWorker(reader, obs2, **kw)
+        raised = []
+        old_hook = threading.excepthook
+
+        def hook(args):
+            if args.thread in (tw, tw2) or args.thread in obs or args.thread in obs2:
+                raised.append((type(args.thread).__name__, repr(args.exc_value)[:200]))
+            else:
+                old_hook(args)
+
+        threading.excepthook = hook
+
+        def run_one(t_, obs_):
+            t_.start_all()
+            threading.Thread.join(t_, max(0.0, deadline - time.monotonic()))
+            if raised and not t_.is_alive():
+                # the tokenizer thread died of an exception: its observers will never be told to stop - that IS the finding;
+                # release them instead of waiting for the watchdog
+                for o in obs_:
+                    try:
+                        o.send(W._STOP_PROCESSING)
+                    except Exception:
+                        pass
+            for o in obs_:
+                threading.Thread.join(o, max(0.0, deadline - time.monotonic()))
+
         deadline = time.monotonic() + watchdog_s
-        alive = []
-        for t in [tw] + obs:
-            threading.Thread.join(t, max(0.0, deadline - time.monotonic()))
-        late = [type(t).__name__ for t in [tw] + obs if t.is_alive()]
+        try:
+            run_one(tw, obs)
+            if tw2 is not None and not any(t.is_alive() for t in [tw] + obs):
+                run_one(tw2, obs2)
+        finally:
+            threading.excepthook = old_hook
+        obs = obs + obs2
+        late = [type(t).__name__ for t in [tw] + ([tw2] if tw2 is not None else []) + obs if t.is_alive()]
         inconclusive = None
         if late:
             # cannot tell slow from stuck by the clock alone: wait a little more, then report as inconclusive
@@ -66,7 +100,7 @@ def run_real(case, data, rng, watchdog_s=60.0):
                     t.send(W._STOP_PROCESSING)
                 except Exception:
                     pass
-        return {"logs": {f"obs{i}": o.vf_log for i, o in enumerate(obs)}, "alive": [], "inconclusive": inconclusive}
+        return {"logs": {f"obs{i}": o.vf_log for i, o in enumerate(obs)}, "alive": [], "inconclusive": inconclusive, "raised": raised}
     finally:
         sys.setswitchinterval(old)
 
